@@ -209,5 +209,5 @@ func TestC04(t *testing.T) {
 			}
 		}
 	}
-	c04Part.Run(s, hx.PerShard(hx.Pick(480, 19200)))
+	c04Part.Run(s, hx.PerShard(hx.Pick(480, 6400)))
 }
